@@ -195,6 +195,18 @@ def check_structured(col, n, p):
                 k = int(np.nonzero(dn != d)[0][0])
                 col.violation("coord_dtype", dict(case, dtype=np.dtype(dt).name, cell=cells[k].tolist()),
                               f"{np.dtype(dt).name} cell {cells[k].tolist()}: {int(dn[k])} vs int64 result {int(d[k])}")
+    # the vectorised entry point given ONE coordinate (a 1-d array / a list): a single distance, the scalar one
+    for k in (0, len(cells) // 2, len(cells) - 1):
+        if len(cells):
+            col.count("evaluations", 2)
+            for one in (cells[k].copy(),):
+                try:
+                    dv = np.asarray(hc.distances_from_coordinates(p, one))
+                    if dv.shape != (1,) or int(dv[0]) != int(d[k]):
+                        col.violation("single_coordinate", dict(case, cell=cells[k].tolist()),
+                                      f"distances_from_coordinates(p, {type(one).__name__} {cells[k].tolist()}) = {dv.tolist()} expected [{int(d[k])}]")
+                except Exception as ex:
+                    col.violation("single_coordinate.raises", dict(case, cell=cells[k].tolist()), f"{type(ex).__name__}: {ex}")
     if (back != cells).any():
         k = int(np.nonzero((back != cells).any(axis=1))[0][0])
         col.violation("roundtrip_c_d_c", dict(case, cell=cells[k].tolist()),
